@@ -22,7 +22,8 @@ with open(sp, "w") as f:
 rp = os.path.join(d, "replay.ndjson")
 vlib.run_harness(exe, ["forest-replay", "--states", sp, "--out", rp, "--seed", str(seed), "--full"])
 dp = os.path.join(d, "drive.ndjson")
-vlib.run_harness(exe, ["forest-drive", "--seed", str(seed), "--episodes", str(episodes), "--len", "40", "--out", dp])
+prof = [a.split("=")[1] for a in sys.argv if a.startswith("--profile=")]
+vlib.run_harness(exe, ["forest-drive", "--seed", str(seed), "--episodes", str(episodes), "--len", "40", "--out", dp] + (["--profile", prof[0]] if prof else []) + (["--views"] if "--views" in sys.argv else []))
 groups = collections.defaultdict(list)
 for name, path in (("replay", rp), ("drive", dp)):
     v = vlib.validate_trace(path, nshards=14, tag="tri_" + name)
